@@ -505,3 +505,16 @@ Theorem tconv_pad_ok_sound_lemma n K s on top bottom :
 Proof.
   unfold tconv_pad_ok. intros H. apply andb_true_iff in H as [H1 H2]. apply Z.eqb_eq in H1. apply Z.leb_le in H2. lia.
 Qed.
+
+(* SAME padding as Vela splits it: the reference's total, the smaller half in front (the reference's padding value) *)
+Theorem conv_pads_reference_lemma input stride k d :
+  0 < stride -> 0 <= input ->
+  let t := tflite_total_padding input stride (dilated_extent k d) in
+  conv_pads 1 input stride k d = (t / 2, t - t / 2).
+Proof.
+  intros Hs Hi t. unfold conv_pads. cbn [Z.eqb Pos.eqb].
+  rewrite (needed_total_padding_is_reference_lemma input stride (dilated_extent k d) Hs Hi). fold t.
+  rewrite Z.add_0_r. f_equal.
+  pose proof (Z.div_mod t 2 ltac:(lia)) as H1. pose proof (Z.mod_pos_bound t 2 ltac:(lia)) as H2.
+  pose proof (Z.div_mod (t + 1) 2 ltac:(lia)) as H3. pose proof (Z.mod_pos_bound (t + 1) 2 ltac:(lia)) as H4. lia.
+Qed.
